@@ -18,6 +18,7 @@ import (
 	"strings"
 	"sync"
 	"sync/atomic"
+	"syscall"
 	"time"
 
 	"github.com/yandex/pandora/examples/grpc/server"
@@ -194,16 +195,31 @@ func (t *Target) Close() {
 	_ = t.l.Close()
 }
 
-// DeadAddr is an address nobody listens on (connection refused).
+// DeadAddr is an address nobody listens on (connection refused). The port is BOUND by a socket of this process
+// that never listens and is never closed, so no other process (other checks run concurrently on this machine) can
+// take the port while the case runs: a connect to a bound, non-listening TCP socket is refused by the kernel.
 func DeadAddr() string {
-	l, err := net.Listen("tcp", "127.0.0.1:0")
-	if err != nil {
-		panic(err)
-	}
-	a := l.Addr().String()
-	_ = l.Close()
-	return a
+	deadOnce.Do(func() {
+		fd, err := syscall.Socket(syscall.AF_INET, syscall.SOCK_STREAM, 0)
+		if err != nil {
+			panic(err)
+		}
+		if err := syscall.Bind(fd, &syscall.SockaddrInet4{Addr: [4]byte{127, 0, 0, 1}}); err != nil {
+			panic(err)
+		}
+		sn, err := syscall.Getsockname(fd)
+		if err != nil {
+			panic(err)
+		}
+		deadAddr = fmt.Sprintf("127.0.0.1:%d", sn.(*syscall.SockaddrInet4).Port)
+	})
+	return deadAddr
 }
+
+var (
+	deadOnce sync.Once
+	deadAddr string
+)
 
 func (t *Target) serve() {
 	for {
